@@ -3,7 +3,8 @@
    `N` is any number instance (rounding + exact operations), `P` any program. *)
 From Coq Require Import ZArith List Bool String.
 From FpyV Require Import Num.RealFloat Num.Float Num.CtxDef Lang.Syntax Lang.Values Lang.Sem Lang.SemProps
-  Lang.SemMono Lang.NumInst Lang.PyIR Lang.Compile Lang.CompileProofs Lang.CompileCorrect Lang.HelperProofs.
+  Lang.SemMono Lang.NumInst Lang.PyIR Lang.Compile Lang.CompileProofs Lang.CompileCorrect Lang.HelperProofs
+  Num.Ctx Num.Arith Lang.NumInst2 Lang.NumInst2Proofs.
 Import ListNotations.
 Open Scope Z_scope.
 
@@ -206,3 +207,45 @@ Theorem C04_size_exact_refuted :
     num_same ln (num_of_Z 5) = true /\ num_same sz (num_of_Z 5) = false /\ num_same sz (num_of_Z 4) = true.
 Proof. exact size_exact_refuted. Qed.
 Print Assumptions C04_size_exact_refuted.
+
+(* ------------------------------------------------------------------ arithmetic nodes and the proved number model *)
+(* "Every arithmetic node is the exact operation rounded under the context active
+   at that point": under the number instance `lead_numops` (the one the
+   correspondence runs use), an arithmetic node whose operands evaluate to the
+   dyadic numbers x, y IS `Num.Arith.arith op C [x; y]` with C the context the
+   evaluator carries at that node — the object of the theorems of Props/C02.v
+   (value = Flocq rounding of the exact result, rounded once) and, through
+   `ctx_round`, of Props/C01.v.  (`arith_res` only repackages the result; the
+   side condition excludes the five operations fpy2 has no engine for under REAL.) *)
+Theorem C04_binop_node_is_arith : forall P n s mu C o a e1 e2 x y mu1 mu2,
+  aop_of o = Some a -> (mpfr_only a && is_real_ctx C) = false ->
+  eval lead_numops P n s mu C e1 = ROk (VNum (NF x), mu1) ->
+  eval lead_numops P n s mu1 C e2 = ROk (VNum (NF y), mu2) ->
+  eval lead_numops P (S n) s mu C (EOp2 o e1 e2) =
+  match arith a C [x; y] with Ok (v, _) => ROk (VNum (num_of_xv v), mu2) | Err e => RErr e end.
+Proof. exact binop_node_is_arith. Qed.
+Print Assumptions C04_binop_node_is_arith.
+
+Theorem C04_unop_node_is_arith : forall P n s mu C o a e x mu1,
+  aop_of o = Some a -> o <> ORound -> o <> OCast -> (mpfr_only a && is_real_ctx C) = false ->
+  eval lead_numops P n s mu C e = ROk (VNum (NF x), mu1) ->
+  eval lead_numops P (S n) s mu C (EOp1 o e) =
+  match arith a C [x] with Ok (v, _) => ROk (VNum (num_of_xv v), mu1) | Err er => RErr er end.
+Proof. exact unop_node_is_arith. Qed.
+Print Assumptions C04_unop_node_is_arith.
+
+Theorem C04_fma_node_is_arith : forall P n s mu C e1 e2 e3 x y z mu1 mu2 mu3,
+  eval lead_numops P n s mu C e1 = ROk (VNum (NF x), mu1) ->
+  eval lead_numops P n s mu1 C e2 = ROk (VNum (NF y), mu2) ->
+  eval lead_numops P n s mu2 C e3 = ROk (VNum (NF z), mu3) ->
+  eval lead_numops P (S n) s mu C (EOp3 OFma e1 e2 e3) =
+  match arith AFma C [x; y; z] with Ok (v, _) => ROk (VNum (num_of_xv v), mu3) | Err e => RErr e end.
+Proof. exact fma_node_is_arith. Qed.
+Print Assumptions C04_fma_node_is_arith.
+
+Theorem C04_round_node_is_ctx_round : forall P n s mu C e x mu1,
+  eval lead_numops P n s mu C e = ROk (VNum (NF x), mu1) ->
+  eval lead_numops P (S n) s mu C (EOp1 ORound e) =
+  match ctx_round0 C x with Ok (y, _) => ROk (VNum (NF y), mu1) | Err er => RErr er end.
+Proof. exact round_node_is_ctx_round. Qed.
+Print Assumptions C04_round_node_is_ctx_round.
